@@ -698,9 +698,9 @@ fn execute(input: &str) -> (Run, Outcome) {
             }
         };
         text.push(tok);
-        if bad_case {
-            break;
-        }
+        // A wrong `perm`/`plan` annotation (replay of a case recorded against other code) makes the case
+        // `bad-case` for the correspondence, but the real code is still run to the end and the oracle is
+        // still evaluated on every step: the annotations are not inputs of the real code.
         if skipped {
             outs.push("K".into());
             noop_last = true;
@@ -848,18 +848,18 @@ fn execute(input: &str) -> (Run, Outcome) {
         outs.push(format!("{em}/{st}"));
         prev_state = st;
     }
-    if bad_case {
-        return bad();
-    }
     // first violation of each class only (a broken state usually stays broken for the rest of the run)
     let mut seen = HashSet::new();
     viol.retain(|(c, _)| seen.insert(c.clone()));
     let nfetch = fetches.len();
     tags.insert(format!("len-{:02}", ops.len().min(40)));
     tags.insert(format!("fetches-{}", nfetch.min(6)));
-    let mut o = Outcome::new(outs.join(" "));
+    let mut o = Outcome::new(if bad_case { "bad-case".to_string() } else { outs.join(" ") });
+    if bad_case {
+        tags.insert("bad-case".into());
+    }
     o.violations = viol;
-    o.nontrivial = nfetch > 0;
+    o.nontrivial = nfetch > 0 && !bad_case;
     o.tags = tags.into_iter().collect();
     (
         Run { text: text.join(" "), noop_last, panicked, pending: pending.into_iter().collect(), nfetch, len: ops.len() },
@@ -1028,6 +1028,23 @@ fn queue_capacity_case(extra: usize) -> String {
     s
 }
 
+/// A full queue (128) behind `conc` fetches in flight, then a disconnect on the matching link, a
+/// reconnect, a late result of an interrupted fetch and a drain. The queue bound is checked by the
+/// oracle after every step, for a persistent peer (session and queue survive the disconnect) and a
+/// non-persistent one.
+fn queue_full_disconnect_case(conc: usize, persistent: bool) -> String {
+    let q = conc + 1;
+    let mut s = format!("{conc},2,{q},{},-,7 {} i2", if persistent { "1" } else { "-" }, if persistent { "o1" } else { "i1" });
+    for r in 1..=conc {
+        s.push_str(&format!(" c{r}.1"));
+    }
+    for _ in 0..(MAX_QUEUE + 1) {
+        s.push_str(&format!(" c{q}.1"));
+    }
+    s.push_str(&format!(" x*1:? {} r1f:? w:? r*0f:? w:? r*0s:? c1.1 x*1:? w:?", if persistent { "o1" } else { "i1" }));
+    s
+}
+
 fn main() {
     // sqlite files of the throw-away node databases: keep them off the disk if possible
     if std::path::Path::new("/dev/shm").is_dir() && std::env::var_os("TMPDIR").is_none() {
@@ -1083,6 +1100,9 @@ fn main() {
         ctx.note("enumeration_seconds", format!("{:.1}", t0.elapsed().as_secs_f64()));
         let mut rng = ctx.rng();
         run_and_record(&mut ctx, &queue_capacity_case(3));
+        for (conc, persistent) in [(1, true), (2, true), (1, false), (2, false)] {
+            run_and_record(&mut ctx, &queue_full_disconnect_case(conc, persistent));
+        }
         let n = ctx.size(1_500, 20_000);
         for i in 0..n {
             let input = gen_random(&mut rng, i % 4 == 0);
@@ -1093,7 +1113,7 @@ fn main() {
     ctx.finish(
         "corpus witnesses; exhaustive enumeration (DFS over event schedules, modulo renaming of non-persistent peers and of \
          repositories, not extending steps that neither changed the observed state nor emitted anything) for the configurations \
-         listed in notes.exhaustive; one queue-capacity case (131 queued fetches); random schedules of 6-60 events over 2-3 peers, \
+         listed in notes.exhaustive; queue-capacity cases (131 queued fetches; a full queue behind 1-2 fetches in flight, then disconnect / reconnect / late result / drain, persistent and non-persistent peer); random schedules of 6-60 events over 2-3 peers, \
          1-3 repos, fetch_concurrency 1-3, optional persistent peer, already-cached refs variant, repositories missing from \
          storage (inventory announcements, sync task) and Wire-filtered worker results. The session shuffle order of \
          every dequeue is computed by the real code and passed to the model. non-trivial = at least one Io::Fetch was emitted; \
